@@ -16,6 +16,7 @@
 #include <pthread.h>
 #include <semaphore.h>
 #include <sys/wait.h>
+#include <sys/mman.h>
 #include <sched.h>
 #include <gmssl/sm2.h>
 #include <gmssl/sm3.h>
@@ -126,7 +127,13 @@ void __real_free(void *);
 /* a freed block may be handed to another task by the allocator: forget its history */
 void __wrap_free(void *q) { if (q && SH && ME >= 0) { IGN++; size_t n = malloc_usable_size(q); uintptr_t g0 = (uintptr_t)q >> 3, g1 = ((uintptr_t)q + n - 1) >> 3; for (uintptr_t g = g0; g <= g1; g++) { size_t j = (g * 0x9E3779B97F4A7C15ULL) >> 42; for (;;) { sh_t *e = &SH[j & (SHCAP - 1)]; if (e->gen != GEN) break; if (e->g == g) { e->rd = e->wr = 0; break; } j++; } } IGN--; } __real_free(q); }
 static int NULLFD = -1;
-static void run_schedule(const uint8_t *pfx, int npfx) { fflush(stdout); if (NULLFD < 0) NULLFD = open("/dev/null", O_WRONLY); int keep = dup(1); dup2(NULLFD, 1); run_schedule2(pfx, npfx); fflush(stdout); dup2(keep, 1); close(keep); }
+/* every execution runs in a forked child: library statics are in their pristine state at the start of each schedule (a lazily built
+   table is built again, so its construction can be interleaved), and a crash is an observation of that schedule */
+typedef struct { out_t out[MAXT]; int ntr; pt_t tr[1 << 16]; int nneww; uintptr_t neww[MAXW]; int diverged, deadlock, done; uint64_t npoints; } shr_t; static shr_t *SHR; static int CRASHED;
+static void run_schedule(const uint8_t *pfx, int npfx) { if (!SHR) SHR = (shr_t *)mmap(NULL, sizeof(shr_t), PROT_READ | PROT_WRITE, MAP_SHARED | MAP_ANONYMOUS, -1, 0); SHR->done = 0; CRASHED = 0; fflush(stdout); pid_t pid = fork(); if (pid < 0) vh_harness_error("fork");
+	if (pid == 0) { if (NULLFD < 0) NULLFD = open("/dev/null", O_WRONLY); dup2(NULLFD, 1); alarm(300); uint64_t p0 = NPOINTS; run_schedule2(pfx, npfx); __real_memcpy(SHR->out, OUT, sizeof OUT); SHR->ntr = NTR; __real_memcpy(SHR->tr, TR, sizeof(pt_t) * (size_t)NTR); SHR->nneww = NNEWW; __real_memcpy(SHR->neww, NEWW, sizeof(uintptr_t) * (size_t)NNEWW); SHR->diverged = DIVERGED; SHR->deadlock = DEADLOCK; SHR->npoints = NPOINTS - p0; SHR->done = 1; _exit(0); }
+	int st; while (waitpid(pid, &st, 0) < 0 && errno == EINTR) {} if (!SHR->done) { CRASHED = 1; NTR = 0; return; }
+	__real_memcpy(OUT, SHR->out, sizeof OUT); NTR = SHR->ntr; __real_memcpy(TR, SHR->tr, sizeof(pt_t) * (size_t)NTR); NNEWW = SHR->nneww; __real_memcpy(NEWW, SHR->neww, sizeof(uintptr_t) * (size_t)NNEWW); DIVERGED = SHR->diverged; DEADLOCK = SHR->deadlock; NPOINTS += SHR->npoints; }
 static void run_schedule2(const uint8_t *pfx, int npfx) { GEN++; NTR = 0; NPFX = npfx; if (npfx) __real_memcpy(PFX, pfx, npfx); DIVERGED = 0; DEADLOCK = 0; pipes_reset(); sem_init(&MAINSEM, 0, 0); pthread_t th[MAXT]; pthread_attr_t at; pthread_attr_init(&at); pthread_attr_setstacksize(&at, 8 << 20);
 	for (int t = 0; t < NT; t++) { DONE[t] = 0; WAITING[t] = -1; sem_init(&SEM[t], 0, 0); } for (int t = 0; t < NT; t++) pthread_create(&th[t], &at, task_thread, (void *)(intptr_t)t);
 	ME = -1; int first = choose_next(-1); CUR = first; sem_post(&SEM[first]); sem_wait(&MAINSEM); for (int t = 0; t < NT; t++) pthread_join(th[t], NULL); pthread_attr_destroy(&at); }
@@ -140,15 +147,16 @@ static void combo_name(char *b, size_t n) { b[0] = 0; for (int t = 0; t < NT; t+
 static void explore_combo(int bound) {
 	char cn[200]; combo_name(cn, sizeof cn);
 	/* sequential references: each plain task alone; a handshake pair together (client, server) in the default schedule */
-	{ int nt = NT; task_t save[MAXT]; __real_memcpy(save, TASK, sizeof save); out_t ref[MAXT]; for (int t = 0; t < nt; ) { int span = save[t].role ? 2 : 1; NT = span; for (int i = 0; i < span; i++) TASK[i] = save[t + i]; USE_W = 0; NNEWW = 0; run_schedule(NULL, 0); for (int i = 0; i < span; i++) ref[t + i] = OUT[i]; t += span; } NT = nt; __real_memcpy(TASK, save, sizeof save); __real_memcpy(REF, ref, sizeof ref); }
-	int restarts = 0; NW = 0;
+	{ NNEWW = 0; int nt = NT; task_t save[MAXT]; __real_memcpy(save, TASK, sizeof save); out_t ref[MAXT]; for (int t = 0; t < nt; ) { int span = save[t].role ? 2 : 1; NT = span; for (int i = 0; i < span; i++) TASK[i] = save[t + i]; USE_W = 0; run_schedule(NULL, 0); if (CRASHED) vh_harness_error("reference run crashed"); for (int i = 0; i < span; i++) ref[t + i] = OUT[i]; t += span; } NT = nt; __real_memcpy(TASK, save, sizeof save); __real_memcpy(REF, ref, sizeof ref); }
+	int restarts = 0; NW = 0; /* conflict / static-write granules seen during the reference runs stay pending and are reported with the first schedule */
 restart:
-	NNEWW = 0; USE_W = 1; typedef struct { uint8_t *p; int n, pre; } item; static item *stack; if (!stack) stack = (item *)malloc(sizeof(item) * 2000000); int sp = 0; stack[sp++] = (item){ NULL, 0, 0 }; uint64_t sched_here = 0; NOUTC = 0;
+	USE_W = 1; typedef struct { uint8_t *p; int n, pre; } item; static item *stack; if (!stack) stack = (item *)malloc(sizeof(item) * 2000000); int sp = 0; stack[sp++] = (item){ NULL, 0, 0 }; uint64_t sched_here = 0; NOUTC = 0;
 	while (sp) { item it = stack[--sp]; if (vh_deadline_hit()) { vh_capped = 1; free(it.p); continue; } run_schedule(it.p, it.n); NSCHED++; NEXEC++; sched_here++; vh_index++; vh_cases++; vh_block_cases++;
 		int judged = !vh_replay_block || vh_replay_index == vh_index; char pre[300] = ""; for (int i = 0, o = 0; i < it.n && o < 280; i++) if (it.p[i]) o += snprintf(pre + o, sizeof pre - o, "%d:%d,", i, it.p[i]);
+		if (CRASHED) { if (judged) { char key[240]; snprintf(key, sizeof key, "C20:crash:%s", cn); vh_viol(key, "\"schedule\":\"%s\"", pre); } free(it.p); continue; }
 		if (DIVERGED) vh_harness_error("schedule prefix diverged on replay (%s, %s)", cn, pre);
 		if (NNEWW) { /* new conflict granules: report as data race, add to W, restart this combination */ for (int i = 0; i < NNEWW && NW < MAXW; i++) { uintptr_t a = NEWW[i] << 3; const char *sy = symbol_of(a); char sb[100]; snprintf(sb, sizeof sb, "%s", sy); char *plus = strchr(sb, '+'); if (plus) *plus = 0; if (judged && (a >= (uintptr_t)__data_start && a < (uintptr_t)_end)) { char key[240]; snprintf(key, sizeof key, "C20:shared-writable-state:%s", sb); vh_viol(key, "\"combination\":\"%s\",\"symbol\":\"%s\",\"schedule\":\"%s\"", cn, sy, pre); } else if (judged) { char key[240]; snprintf(key, sizeof key, "C20:conflicting-access:%s", cn); vh_viol(key, "\"where\":\"%s\",\"schedule\":\"%s\"", sy, pre); } WSET[NW++] = NEWW[i]; }
-			while (sp) free(stack[--sp].p); free(it.p); if (++restarts < 40) goto restart; break; }
+			while (sp) free(stack[--sp].p); free(it.p); NNEWW = 0; if (++restarts < 40) goto restart; break; }
 		uint64_t oc = 0; for (int t = 0; t < NT; t++) oc = vh_hash(&OUT[t], sizeof OUT[t], oc); int seen = 0; for (int i = 0; i < NOUTC; i++) if (OUTCOMES_SEEN[i] == oc) seen = 1; if (!seen && NOUTC < 64) OUTCOMES_SEEN[NOUTC++] = oc;
 		if (judged) { vh_eval(vh_hash(it.p, it.n, vh_hash(TASK, sizeof(task_t) * NT, 5))); if (DEADLOCK) { char key[240]; snprintf(key, sizeof key, "C20:deadlock:%s", cn); vh_viol(key, "\"schedule\":\"%s\"", pre); }
 			for (int t = 0; t < NT; t++) if (OUT[t].h != REF[t].h || OUT[t].rc != REF[t].rc) { char key[240]; snprintf(key, sizeof key, "C20:result-differs-from-sequential:%s", cn); vh_viol(key, "\"task\":%d,\"op\":\"%s\",\"rc\":%d,\"rc_alone\":%d,\"schedule\":\"%s\",\"preemptions\":%d", t, OPS[TASK[t].op].name, OUT[t].rc, REF[t].rc, pre, it.pre); break; } }
@@ -175,9 +183,11 @@ static pthread_barrier_t BAR;
 static void *free_thread(void *arg) { int t = (int)(intptr_t)arg; ME = t; pthread_barrier_wait(&BAR); run_task_body(t); if (TASK[t].role) pipe_close_peer(3000 + TASK[t].pipe); return NULL; }
 static void run_free(void) { pipes_reset(); pthread_t th[MAXT * 4]; pthread_barrier_init(&BAR, NULL, NT); for (int t = 0; t < NT; t++) pthread_create(&th[t], NULL, free_thread, (void *)(intptr_t)t); for (int t = 0; t < NT; t++) pthread_join(th[t], NULL); pthread_barrier_destroy(&BAR); }
 typedef struct { int ops[16]; int n; } fcombo; static fcombo FC; static out_t FOUT[MAXT], FREF[MAXT];
-static int child_free(void *unused) { (void)unused; creds_init(); hcreds_init(); /* sequential references first, then the concurrent run (x3 repetitions) */ NT = 0; int pipe = 0; for (int k = 0; k < FC.n; k++) { if (OPS[FC.ops[k]].pair) { TASK[NT] = (task_t){ FC.ops[k], k, 1, pipe }; TASK[NT + 1] = (task_t){ FC.ops[k], k, 2, pipe + 1 }; NT += 2; pipe += 2; } else { TASK[NT] = (task_t){ FC.ops[k], k, 0, 0 }; NT++; } }
+static int child_free(void *unused) { (void)unused; creds_init(); hcreds_init();  NT = 0; int pipe = 0; for (int k = 0; k < FC.n; k++) { if (OPS[FC.ops[k]].pair) { TASK[NT] = (task_t){ FC.ops[k], k, 1, pipe }; TASK[NT + 1] = (task_t){ FC.ops[k], k, 2, pipe + 1 }; NT += 2; pipe += 2; } else { TASK[NT] = (task_t){ FC.ops[k], k, 0, 0 }; NT++; } }
+	/* the concurrent runs come FIRST in this fresh process (a lazily initialised static is only racy the first time), the sequential references after */
+	static out_t conc[3][MAXT]; for (int rep = 0; rep < 3; rep++) { run_free(); memcpy(conc[rep], OUT, sizeof OUT); }
 	int nt = NT; task_t save[MAXT]; memcpy(save, TASK, sizeof save); for (int t = 0; t < nt; ) { int span = save[t].role ? 2 : 1; NT = span; for (int i = 0; i < span; i++) TASK[i] = save[t + i]; run_free(); for (int i = 0; i < span; i++) FREF[t + i] = OUT[i]; t += span; } NT = nt; memcpy(TASK, save, sizeof save);
-	int bad = 0; for (int rep = 0; rep < 3; rep++) { run_free(); for (int t = 0; t < NT; t++) if (OUT[t].h != FREF[t].h || OUT[t].rc != FREF[t].rc) bad = 1 + t; } (void)FOUT; return bad; }
+	int bad = 0; for (int rep = 0; rep < 3; rep++) for (int t = 0; t < NT; t++) if (conc[rep][t].h != FREF[t].h || conc[rep][t].rc != FREF[t].rc) bad = 1 + t; (void)FOUT; return bad; }
 static void body(void) { int combo = 0; if (!vh_block_begin("free-running")) return;
 	for (int a = 0; a < NOPS; a++) for (int b = a; b < NOPS; b++) { (void)combo; if (OPS[a].pair && OPS[b].pair && a != b && !vh_thorough) continue; if (!vh_next()) continue; FC.n = 2; FC.ops[0] = a; FC.ops[1] = b; if (OPS[a].pair && OPS[b].pair && MAXT < 4) continue; vh_obs_t ob; vh_fork(child_free, NULL, 300, &ob, NULL, 0, NULL); vh_eval(vh_mix(a * 100 + b + 1)); char cn[120]; snprintf(cn, sizeof cn, "%s|%s", OPS[a].name, OPS[b].name);
 		const char *race = ob.err ? strstr(ob.err, "WARNING: ThreadSanitizer: data race") : NULL; if (race) { const char *loc = strstr(race, "Location is global '"); char sym[100] = "?"; if (loc) snprintf(sym, sizeof sym, "%.*s", (int)strcspn(loc + 20, "'"), loc + 20); else { const char *fr = strstr(race, "#0 "); if (fr) snprintf(sym, sizeof sym, "%.*s", (int)strcspn(fr + 3, " \n"), fr + 3); } char key[240]; snprintf(key, sizeof key, "C20:tsan-data-race:%s", sym); char rep[700]; size_t n = 0; for (const char *p = race; *p && n < sizeof rep - 1; p++) rep[n++] = (*p == '"' || *p == '\\') ? ' ' : (*p == '\n' ? '|' : *p); rep[n] = 0; vh_viol(key, "\"combination\":\"%s\",\"report\":\"%s\"", cn, rep); }
